@@ -83,7 +83,10 @@ RLoop(r) ==     \* holding the lock
     /\ IF list = <<>>
           THEN /\ word' = [word EXCEPT !.locked = FALSE] /\ rres' = [rres EXCEPT ![r] = "true"]
                /\ rpc' = [rpc EXCEPT ![r] = "done"] /\ UNCHANGED <<list, linked, rcur>>
-          ELSE /\ list' = Tail(list) /\ linked' = [linked EXCEPT ![Head(list)] = FALSE]
+          ELSE /\ list' = Tail(list)
+               \* "prev_ = nullptr" marks the entry as dequeued; variant mark_after_unlock (seeded change C14-4) does
+               \* that only after the lock has been released
+               /\ linked' = IF Variant = "mark_after_unlock" THEN linked ELSE [linked EXCEPT ![Head(list)] = FALSE]
                /\ rcur' = [rcur EXCEPT ![r] = Head(list)] /\ rpc' = [rpc EXCEPT ![r] = "unlock"]
                /\ UNCHANGED <<word, rres>>
     /\ UNCHANGED <<finished, remPtr, remFlag, sig, executed, running, destroyed, unlinked, bad, rold, apc, aold, ares, dpc>>
@@ -94,8 +97,9 @@ RSetPtr(r) ==
     /\ rpc[r] = "setptr"
     /\ remFlag' = [remFlag EXCEPT ![r] = FALSE] /\ remPtr' = [remPtr EXCEPT ![rcur[r]] = r]
     /\ bad' = (bad \/ destroyed[rcur[r]])
+    /\ linked' = IF Variant = "mark_after_unlock" THEN [linked EXCEPT ![rcur[r]] = FALSE] ELSE linked
     /\ rpc' = [rpc EXCEPT ![r] = "exec"]
-    /\ UNCHANGED <<word, list, linked, finished, sig, executed, running, destroyed, unlinked, rold, rcur, rres, apc, aold, ares, dpc>>
+    /\ UNCHANGED <<word, list, finished, sig, executed, running, destroyed, unlinked, rold, rcur, rres, apc, aold, ares, dpc>>
 RExec(r) ==
     /\ rpc[r] = "exec"
     /\ executed' = [executed EXCEPT ![rcur[r]] = @ + 1] /\ running' = [running EXCEPT ![rcur[r]] = TRUE]
